@@ -239,6 +239,59 @@ def run_slice(job: dict) -> dict:
                         res["samples"].append({"version": version, "explicit_api_version": explicit, "transport": transport,
                                                "type_in_meta": typ,
                                                "requests_received": [(c[1], len(c[2]), sorted(c[3])) for c in result["calls"]][:8]})
+    # ---- extra methods of old simulators reach the simulator unchanged ("apart from that, it sees the same ...")
+    import mosaik
+    from .. import stubs
+    n = 0
+    for version in (None, "1", "2.0", "2.1", "2.2", "3.0"):
+        for cls in ("V3Sig", "V2Sig"):
+            if cls == "V2Sig" and vlist(version) >= [3]:
+                continue
+            n += 1
+            if n % W != w:
+                continue
+            del stubs.CALLS[:]
+            with warnings.catch_warnings():
+                warnings.simplefilter("ignore")
+                world = mosaik.World({"Stub": {"python": f"vlab.stubs:{cls}"}}, skip_greetings=True)
+                try:
+                    f = world.start("Stub", sim_id="X", cfg={"version": version, "type": "time-based", "extra_methods": True})
+                    for name in stubs.EXTRA:
+                        C["extra_method_calls"] += 1
+                        ret = getattr(f, name)(7)
+                        got = [c for c in stubs.CALLS if c[1] == "extra:" + name]
+                        if ret != f"{name}:X" or len(got) != 1 or got[0][2] != (7,):
+                            viol({"kind": "extra_method_call_did_not_reach_old_simulator", "version": version,
+                                  "transport": "inproc_" + cls.lower(), "type": "time-based", "method": name,
+                                  "returned": repr(ret), "calls_seen": len(got), "_ek": "none"})
+                finally:
+                    world.shutdown()
+            res["evaluations"] += 1
+    # ---- several starts from ONE sim_config entry with an explicit api_version: every start is checked ------
+    n = 0
+    for explicit, reported in (("2.2", ["2.2", "3.0", "2.2"]), ("3.0", ["2.2", "2.2", "3.0"]), ("2.2", ["3.0", "3.0"]),
+                               ("3.0", ["3.0", "3.0", "2.0"])):
+        n += 1
+        if n % W != w:
+            continue
+        with warnings.catch_warnings():
+            warnings.simplefilter("ignore")
+            world = mosaik.World({"Stub": {"python": "vlab.stubs:V3Sig", "api_version": explicit}}, skip_greetings=True)
+            try:
+                for k2, rep_v in enumerate(reported):
+                    C["repeated_start_cases"] += 1
+                    try:
+                        world.start("Stub", sim_id=f"X{k2}", cfg={"version": rep_v, "type": "time-based"})
+                        ok = True
+                    except mosaik.exceptions.ScenarioError:
+                        ok = False
+                    if ok != (vlist(rep_v) == vlist(explicit)):
+                        viol({"kind": "accepted_but_must_be_rejected" if ok else "rejected_but_valid", "version": rep_v,
+                              "explicit_api_version": explicit, "transport": "inproc_v3sig", "type": "time-based",
+                              "start_number_from_same_entry": k2 + 1, "_ek": "none"})
+            finally:
+                world.shutdown()
+        res["evaluations"] += 1
     # ---- an old simulator that fails inside step(): the failure must surface, and the adapter must not
     # fall back to the un-adapted request (max_advance) or step the simulator twice ---------------------------
     n = 0
@@ -331,7 +384,9 @@ def evidence(m, tier, seed):
                 "api_version in {none, equal, different major, different minor} x transport in {in-process v3 / v2 / strict v2 / v1 "
                 "signatures, same-named classes with the opposite signatures started after each other in one "
                 "process, raw-socket stub process without mosaik_api_v3} x type present/absent; old stubs failing "
-                "inside step() (ValueError/TypeError/KeyError); accepted stubs are "
+                "inside step() (ValueError/TypeError/KeyError); extra methods (names that are substrings of API "
+                "method names) called on old stubs; several starts from one sim_config entry with an explicit "
+                "api_version; accepted stubs are "
                 "connected both ways to a v3 peer and run; oracle = version table (step arity, setup_done, "
                 "time_resolution in init, type default, start accepted/rejected); differential 3.0 vs old version: "
                 "same (time, inputs) sequence for the stub and same data for its peer; distinct_nontrivial = "
